@@ -279,7 +279,10 @@ PROPS = {
                        "string; <0xNN> parsing is exact on all 256 pieces and rejects short ones; convertTiktoken keeps every line in order "
                        "(tiktoken_keeps); convertTekken keeps every token inside the declared size under rank + specials, invents nothing, is "
                        "sorted, and its special and vocabulary ids are disjoint; the detection chain returns the native result first and the "
-                       "explicit result exactly when earlier loaders reject; keepsCheck_sound (the decidable checker implies the property). "
+                       "explicit result exactly when earlier loaders reject; keepsCheck_sound (the decidable checker implies the property); from raw "
+                       "bytes: base64_roundtrip and base64_decode_canonical (only canonical encodings are accepted), parseU32_digits / "
+                       "parseU32_overflow_rejected, parseTiktoken_render and tiktoken_text_keeps (the text of any vocabulary converts to exactly "
+                       "its entries, ids and order). "
                        "The SentencePiece and Tokenizers converters are decided per source by keepsCheck on the implementation's output.",
     },
     "C16": {
@@ -310,11 +313,14 @@ PROPS = {
                 "invalid regexes, invalid UTF-8 specials), their mutations, boundary files, and 16 (quick) / 400 (thorough) truncations, bit "
                 "flips, splices and field-level mutations of each of the 24 shipped files through auto-detection and the explicit loader. "
                 "INITB / DESER ops (model and implementation): native files of 200 / 3000 generated definitions, 12 / 30 mutations each and "
-                "every prefix truncation of every 20th. Verdict: never PANIC / CRASH; a truncated valid native file must be rejected. "
+                "every prefix truncation of every 20th. LOADTT ops (model and implementation): the Tiktoken loader from raw bytes (line splitting, "
+                "base64 with canonical padding, decimal ids, conversion) on 600 / 6000 generated texts and their mutations, boundary texts "
+                "(CR/LF forms, signs, overflowing ids, bad padding, invalid UTF-8) and the three shipped files with whole-file mutations. "
+                "Verdict: never PANIC / CRASH; a truncated valid native file must be rejected. "
                 "Non-trivial: all.",
-        "trusted_base": CORE_TB + ["modelled and proved: native format (size/magic/version, postcard body), Kitoken::new, character-map blob loader",
-                                   "NOT modelled (explored on the implementation only): the protobuf, JSON and base64 parsers and the four converters' "
-                                   "own logic; allocation failure; resource exhaustion through declared sizes is excluded by the property"],
+        "trusted_base": CORE_TB + ["modelled and proved: native format (size/magic/version, postcard body), Kitoken::new, character-map blob loader, the Tiktoken loader from raw bytes",
+                                   "NOT modelled (explored on the implementation only): the protobuf and JSON parsers and the SentencePiece / Tokenizers / Tekken "
+                                   "loaders from raw bytes; allocation failure; resource exhaustion through declared sizes is excluded by the property"],
         "assumptions": ["external parsers (prost, serde_json, base64, postcard) terminate", "a child process that dies is reported as CRASH"],
         "explanation": "Lean theorems: the character-map loader is total and checks its size field; decoding a native body only takes bytes off "
                        "the front (native_dec_within_input), decoded element counts are bounded by the input length (native_sizes_bounded), "
